@@ -453,5 +453,189 @@ theorem mem_dedup : ∀ {l : List String} {x : String}, x ∈ l → x ∈ dedup 
       rcases List.mem_cons.1 h with rfl | h
       · exact List.mem_cons_self
       · exact List.mem_cons_of_mem _ (mem_dedup h)
+/-! ### `judge`, for a glyph with a version, as one expression; small facts about its clauses -/
+
+theorem judge_eq {d : Doc} {ver : Nat} (hver : (docVersion d).1 = some ver) :
+    judge rd d =
+      (dedup (glyphAttrCheck d ++ (merge (d.items.map (itemCheck rd ver))).1 ++
+          (onceOnly.filterMap fun n => if countName d n.toList > 1 then some ("dup-" ++ n) else none) ++
+          (if hasDup (docIdents d) then ["ident-dup"] else []) ++ objectLibsCheck d),
+        (merge (d.items.map (itemCheck rd ver))).2 || !d.trailer.isEmpty) := by
+  have hv : docVersion d = (some ver, (docVersion d).2) := Prod.ext hver rfl
+  unfold judge
+  rw [hv]
+
+theorem objectLibsCheck_rules {d : Doc} {r : String} (h : r ∈ objectLibsCheck d) : r = "objlib-entry" ∨ r = "objlibs" := by
+  simp only [objectLibsCheck, List.mem_flatMap] at h
+  obtain ⟨i, _, hr⟩ := h
+  repeat' split at hr
+  all_goals simp at hr
+  all_goals first | exact .inl hr | exact .inr hr
+
+theorem containerAttrs_rule {a : Option (List Attr)} {r : String} (h : r ∈ containerAttrs a) : r = "container-attrs" := by
+  cases a with
+  | none => simpa [containerAttrs] using h
+  | some as => cases as <;> simp [containerAttrs] at h <;> exact h
+
+theorem cnt_append (a b : List Item) (n : Str) : cnt (a ++ b) n = cnt a n + cnt b n := by
+  simp [cnt, List.filter_append]
+
+theorem elemIdent_nodup (e : Elem) : (elemIdent e).Nodup := by
+  cases ha : e.attrs with
+  | none => simp [elemIdent, ha]
+  | some as => rw [elemIdent_eq ha]; exact nodup_toList _
+/-! ### the two laws assumed of Rust's float parser are jointly satisfiable
+
+`ReadsNumerals rd` (every plain decimal numeral is read) and `ReadsTrimmed rd` (nothing with a blank at either end is read)
+hold together for the reader that reads exactly the plain numerals: a numeral consists of digits, signs, `.`, `e`, `E`. -/
+
+def numChar (c : Char) : Bool := isDigit c || c == '-' || c == '+' || c == '.' || c == 'e' || c == 'E'
+
+theorem takeDigits_spec : ∀ (s : Str), (takeDigits s).1 ++ (takeDigits s).2 = s ∧ ∀ c, c ∈ (takeDigits s).1 → numChar c = true
+  | [] => ⟨rfl, by intro c h; cases h⟩
+  | c :: r => by
+    obtain ⟨h1, h2⟩ := takeDigits_spec r
+    unfold takeDigits
+    by_cases hd : isDigit c = true
+    · simp only [hd, if_true]
+      refine ⟨by simp [h1], ?_⟩
+      intro x hx
+      rcases List.mem_cons.1 hx with rfl | hx
+      · simp [numChar, hd]
+      · exact h2 x hx
+    · simp only [hd, Bool.false_eq_true, if_false]
+      exact ⟨rfl, by intro x hx; cases hx⟩
+
+def numStage3 (r : Str) : Bool :=
+  match r with
+  | [] => true
+  | c :: r' =>
+    if c = 'e' ∨ c = 'E' then
+      let r' := match r' with | '+' :: t => t | '-' :: t => t | _ => r'
+      let (e, t) := takeDigits r'
+      !e.isEmpty && t.isEmpty
+    else false
+
+def numStage2 (r : Str) : Bool :=
+  let r := match r with
+    | '.' :: r' => let (f, t) := takeDigits r'; if f.isEmpty then ['!'] else t
+    | _ => r
+  numStage3 r
+
+theorem numeral_eq (s : Str) : numeral s =
+    (let s := match s with | '-' :: r => r | _ => s
+     let (i, r) := takeDigits s
+     if i.isEmpty then false else numStage2 r) := rfl
+
+theorem all_digits_of_rest_nil {s : Str} (h : (takeDigits s).2.isEmpty = true) : ∀ c, c ∈ s → numChar c = true := by
+  obtain ⟨h1, h2⟩ := takeDigits_spec s
+  have : (takeDigits s).2 = [] := by simpa using h
+  rw [this, List.append_nil] at h1
+  intro c hc
+  rw [← h1] at hc
+  exact h2 c hc
+
+theorem numStage3_chars {r : Str} (h : numStage3 r = true) : ∀ c, c ∈ r → numChar c = true := by
+  unfold numStage3 at h
+  split at h
+  · intro c hc; cases hc
+  · rename_i c r'
+    split at h
+    · rename_i hce
+      have hc : numChar c = true := by rcases hce with rfl | rfl <;> decide
+      simp only [Bool.and_eq_true] at h
+      intro x hx
+      rcases List.mem_cons.1 hx with rfl | hx
+      · exact hc
+      · revert h
+        split
+        · rename_i t
+          intro h
+          rcases List.mem_cons.1 hx with rfl | hx
+          · decide
+          · exact all_digits_of_rest_nil h.2 x hx
+        · rename_i t
+          intro h
+          rcases List.mem_cons.1 hx with rfl | hx
+          · decide
+          · exact all_digits_of_rest_nil h.2 x hx
+        · intro h
+          exact all_digits_of_rest_nil h.2 x hx
+    · cases h
+
+theorem numStage2_chars {r : Str} (h : numStage2 r = true) : ∀ c, c ∈ r → numChar c = true := by
+  unfold numStage2 at h
+  revert h
+  split
+  · rename_i r'
+    intro h
+    obtain ⟨h1, h2⟩ := takeDigits_spec r'
+    by_cases hf : (takeDigits r').1.isEmpty = true
+    · simp only [hf, if_true] at h
+      exact absurd h (by decide)
+    · simp only [hf, Bool.false_eq_true, if_false] at h
+      intro x hx
+      rcases List.mem_cons.1 hx with rfl | hx
+      · decide
+      · rw [← h1] at hx
+        rcases List.mem_append.1 hx with hx | hx
+        · exact h2 x hx
+        · exact numStage3_chars h x hx
+  · intro h
+    exact numStage3_chars h
+
+theorem numeral_chars {s : Str} (h : numeral s = true) : ∀ c, c ∈ s → numChar c = true := by
+  rw [numeral_eq] at h
+  have key : ∀ s' : Str, (if (takeDigits s').1.isEmpty then false else numStage2 (takeDigits s').2) = true →
+      ∀ c, c ∈ s' → numChar c = true := by
+    intro s' h' c hc
+    obtain ⟨h1, h2⟩ := takeDigits_spec s'
+    by_cases hi : (takeDigits s').1.isEmpty = true
+    · simp [hi] at h'
+    · simp only [hi, Bool.false_eq_true, if_false] at h'
+      rw [← h1] at hc
+      rcases List.mem_append.1 hc with hc | hc
+      · exact h2 c hc
+      · exact numStage2_chars h' c hc
+  revert h
+  split
+  · rename_i r
+    intro h c hc
+    rcases List.mem_cons.1 hc with rfl | hc
+    · decide
+    · exact key r h c hc
+  · intro h
+    exact key s h
+
+theorem numChar_nonblank {c : Char} (h : numChar c = true) :
+    decide (c = ' ' ∨ c = '\t' ∨ c = '\n' ∨ c = '\r') = false := by
+  simp only [decide_eq_false_iff_not]
+  intro hb
+  rcases hb with rfl | rfl | rfl | rfl <;> revert h <;> decide
+
+theorem dropWhile_id {p : Char → Bool} : ∀ {l : Str}, (∀ c, c ∈ l → p c = false) → l.dropWhile p = l
+  | [], _ => rfl
+  | c :: r, h => by simp [List.dropWhile, h c List.mem_cons_self]
+
+theorem trimBlanks_numeral {s : Str} (h : numeral s = true) : trimBlanks s = s := by
+  have hall := numeral_chars h
+  unfold trimBlanks
+  simp only
+  rw [dropWhile_id (fun c hc => numChar_nonblank (hall c hc))]
+  rw [dropWhile_id (fun c hc => numChar_nonblank (hall c (List.mem_reverse.1 hc)))]
+  exact List.reverse_reverse s
+
+/-- the reader that reads exactly the plain decimal numerals -/
+def readsPlain : Str → Option Nat := fun s => if numeral s = true then some 0 else none
+
+theorem readsPlain_numerals : ReadsNumerals readsPlain := by
+  intro s hs
+  exact ⟨0, by simp [readsPlain, hs]⟩
+
+theorem readsPlain_trimmed : ReadsTrimmed readsPlain := by
+  intro t b h
+  by_cases hn : numeral t = true
+  · exact trimBlanks_numeral hn
+  · simp [readsPlain, hn] at h
 end
 end Glif
